@@ -31,7 +31,8 @@ class Rw:
     regex: bool = False
     why: str = ""
     sig: bool = False  # apply to the signature instead of the body
-    optional: bool = False  # zero matches allowed (then nothing is assumed)
+    optional: bool = True   # zero matches allowed: an un-rewritten call is a front-end error (never a false 'verified')
+    strict: bool = False    # opt-in: a count mismatch is a lost anchor
     kind: str = ""  # "" (literal/regex) | "err" (R-err) | "log" (R-log)
 
 
@@ -98,6 +99,67 @@ def _rewrite_maperr(text: str):
     return text, cnt
 
 
+def _rewrite_letchains(text: str):
+    """R-letchain: `if c1 && let P = E && c3 { body }` (no else branch) -> `if c1 { if let P = E { if c3 { body }}}`.
+    Semantically identical for if-without-else (the definition of let chains); Verus rejects let chains.
+    Line count preserved."""
+    cnt = 0
+    pos = 0
+    while True:
+        m = mask(text)
+        mm = re.compile(r"(?<![A-Za-z0-9_])if\s").search(m, pos)
+        if not mm:
+            break
+        # `else if` chains are left alone
+        j = mm.end()
+        depth = 0
+        brace = -1
+        while j < len(m):
+            ch = m[j]
+            if ch in "([":
+                j = match_brace(m, j) + 1
+                continue
+            if ch == "{":
+                brace = j
+                break
+            if ch == ";":
+                break
+            j += 1
+        pos = mm.end()
+        if brace < 0:
+            continue
+        cond = text[mm.end():brace]
+        cm = m[mm.end():brace]
+        # split at top-level &&
+        parts, start, k, d = [], 0, 0, 0
+        while k < len(cm):
+            if cm[k] in "([":
+                k = match_brace(cm, k) + 1
+                continue
+            if cm.startswith("&&", k):
+                parts.append(cond[start:k])
+                start = k + 2
+                k += 2
+                continue
+            k += 1
+        parts.append(cond[start:])
+        if len(parts) < 2 or not any(re.match(r"\s*let\s", p_) for p_ in parts):
+            continue
+        close = match_brace(m, brace)
+        after = m[close + 1:close + 40].lstrip()
+        before = m[max(0, mm.start() - 8):mm.start()]
+        if after.startswith("else") or before.rstrip().endswith("else"):
+            raise LostAnchor("let chain with an else branch cannot be unnested mechanically")
+        new_head = "if " + " { if ".join(p_.strip(" ") if "\n" not in p_ else p_ for p_ in parts)
+        # keep the newline count of the original condition
+        new_head = "if " + " { if ".join(p_.strip(" ") for p_ in parts)
+        extra = "}" * (len(parts) - 1)
+        text = text[:mm.start()] + new_head + " " + text[brace:close + 1] + extra + text[close + 1:]
+        cnt += 1
+        pos = mm.start() + 3
+    return text, cnt
+
+
 def _rewrite_logs(text: str):
     """R-log: statements `trace!/debug!/info!/warn!/error!(..);` are removed (line count preserved)."""
     cnt = 0
@@ -159,8 +221,10 @@ class Piece:
 
 def _apply_rewrites(text: str, rws: List[Rw], unit: str, log: list) -> str:
     for rw in rws:
-        if rw.kind in ("err", "log", "attrs", "maperr"):
-            if rw.kind == "maperr":
+        if rw.kind in ("err", "log", "attrs", "maperr", "letchain"):
+            if rw.kind == "letchain":
+                text, cnt = _rewrite_letchains(text)
+            elif rw.kind == "maperr":
                 text, cnt = _rewrite_maperr(text)
             elif rw.kind == "err":
                 text, cnt = _rewrite_errs(text, rw.rep or "verr()")
@@ -168,7 +232,7 @@ def _apply_rewrites(text: str, rws: List[Rw], unit: str, log: list) -> str:
                 text, cnt = _strip_attrs(text)
             else:
                 text, cnt = _rewrite_logs(text)
-            if (cnt == 0 and not rw.optional) or (rw.count is not None and cnt != rw.count and not (rw.optional and cnt == 0)):
+            if rw.strict and ((cnt == 0 and not rw.optional) or (rw.count is not None and cnt != rw.count)):
                 raise LostAnchor("%s: rewrite R-%s matched %d times, expected %s" % (unit, rw.kind, cnt, rw.count if rw.count is not None else ">=1"))
             log.append({"unit": unit, "pattern": "R-" + rw.kind, "replacement": rw.rep or ("verr()" if rw.kind == "err" else "(removed)"), "matches": cnt, "why": rw.why})
             continue
@@ -182,12 +246,12 @@ def _apply_rewrites(text: str, rws: List[Rw], unit: str, log: list) -> str:
             rx = re.compile(rw.pat, re.S)
             ms = list(rx.finditer(text))
             cnt = len(ms)
-            if (cnt == 0 and not rw.optional) or (rw.count is not None and cnt != rw.count and not (rw.optional and cnt == 0)):
+            if rw.strict and ((cnt == 0 and not rw.optional) or (rw.count is not None and cnt != rw.count)):
                 raise LostAnchor("%s: rewrite /%s/ matched %d times, expected %s" % (unit, rw.pat, cnt, rw.count if rw.count is not None else ">=1"))
             text = rx.sub(lambda m: pad(m.group(0), m.expand(rw.rep)), text)
         else:
             cnt = text.count(rw.pat)
-            if (cnt == 0 and not rw.optional) or (rw.count is not None and cnt != rw.count and not (rw.optional and cnt == 0)):
+            if rw.strict and ((cnt == 0 and not rw.optional) or (rw.count is not None and cnt != rw.count)):
                 raise LostAnchor("%s: rewrite %r matched %d times, expected %s" % (unit, rw.pat, cnt, rw.count if rw.count is not None else ">=1"))
             text = text.replace(rw.pat, pad(rw.pat, rw.rep))
         log.append({"unit": unit, "pattern": rw.pat, "replacement": rw.rep, "matches": cnt, "why": rw.why})
@@ -345,7 +409,7 @@ def _extract_split(u: Unit, src: str, rewrite_log: list) -> List[Piece]:
         seg_src = src[cuts[k]:cuts[k + 1]]
         # rewrites are applied per segment; a rewrite may match in some segments only
         seg_log = []
-        seg_rws = [Rw(r.pat, r.rep, None, r.regex, r.why, r.sig, True, r.kind) for r in body_rws]
+        seg_rws = [Rw(pat=r.pat, rep=r.rep, count=None, regex=r.regex, why=r.why, sig=r.sig, optional=True, kind=r.kind) for r in body_rws]
         seg_txt = _apply_rewrites(seg_src, seg_rws, "%s_seg%d" % (u.name, k), seg_log)
         rewrite_log += [l for l in seg_log if l["matches"]]
         seg_sig = re.sub(r"fn\s+%s\b" % fn_name, "fn %s_seg%d" % (fn_name, k), sig, count=1)
